@@ -349,8 +349,8 @@ func (exp *exporter) CheckParamAssignement(param string, value string) bool {
 			return false
 		}
 	case "xhtml-chap-prefix":
-		if strings.ContainsRune(value, '/') {
-			ctx.Error("xhtml-chap-prefix parameter cannot contain a path separator:", value)
+		if strings.ContainsRune(value, '/') || !idIsSafe(value) {
+			ctx.Error("xhtml-chap-prefix parameter cannot contain a path separator or a markup character:", value)
 			return false
 		}
 	case "xhtml-version":
@@ -575,6 +575,10 @@ func (exp *exporter) HeaderReference(macro string) string {
 	useID, ok := ctx.Params["xhtml-custom-ids"]
 	if ok && (useID != "" && useID != "0") {
 		idText = ctx.IDX
+	}
+	if !idIsSafe(idText) {
+		ctx.Error("id contains a markup character and cannot be used as custom id:", idText)
+		idText = ""
 	}
 	switch macro {
 	case "Pt", "Ch":
